@@ -6,7 +6,7 @@ use clap::{Arg, ArgAction, Command};
 use clap_complete::aot::{generate, Shell};
 use serde_json::{json, Value};
 
-const SLOTS: [(&str, &str, &str); 3] = [("help", "QZHA", "QZHB"), ("about", "QZSA", "QZSB"), ("pvhelp", "QZPA", "QZPB")];
+const SLOTS: [(&str, &str, &str); 4] = [("help", "QZHA", "QZHB"), ("about", "QZSA", "QZSB"), ("pvhelp", "QZPA", "QZPB"), ("poshelp", "QZOA", "QZOB")];
 
 fn build(text: &str) -> Command {
     let wrap = |a: &str, b: &str| format!("{a}{text}{b}");
@@ -19,6 +19,7 @@ fn build(text: &str) -> Command {
                 .help("plain")
                 .value_parser(PossibleValuesParser::new([PossibleValue::new("zfast").help(wrap("QZPA", "QZPB")), PossibleValue::new("zslow").help("plain")])),
         )
+        .arg(Arg::new("zpos").help(wrap("QZOA", "QZOB")))
         .subcommand(Command::new("zsub").visible_alias("zsubalias").about(wrap("QZSA", "QZSB")))
         .arg(Arg::new("zopt").short('o').visible_short_alias('O').long("zopt").visible_alias("zoptalias").action(ArgAction::Set).help(wrap("QZHA", "QZHB")))
 }
